@@ -16,7 +16,7 @@
    what the correspondence check tests on every run. *)
 From Coq Require Import List ZArith NArith Bool Permutation.
 Import ListNotations.
-From Verif Require Import Val Filenames FilenamesProofs Render RenderProofs.
+From Verif Require Import Val Filenames FilenamesProofs Render RenderProofs RenderProofs2.
 Local Open Scope Z_scope.
 
 (* M2 + M4 + "each unit at or above the split level has its own file": whenever the assignment succeeds, for every document, every
@@ -176,3 +176,107 @@ Theorem C13_deterministic :
       render (the_fmap files1) tmpl layout shows d1 fn1 = render (the_fmap files2) tmpl layout shows d2 fn2.
 Proof. exact render_deterministic. Qed.
 Print Assumptions C13_deterministic.
+
+(* ---- added in the second deepening round: the assignment computed by the Model discharges the hypotheses about fmap ---- *)
+
+(* "each sectioning unit at or above the split level is written to its own file, units below it [are not]": for every configuration and
+   every document with distinct node identities, if the assignment succeeds then a node of the document has a file exactly when its level
+   is <= the effective split level, and none exactly when it is above *)
+Theorem C13_units_by_level :
+  forall c doc st files, assign c doc = Some (AOk st files) -> NoDup (sers doc) ->
+    forall a, In a (elements doc) ->
+      ((exists f, the_fmap files (a_ser a) = Some f) <-> a_level a <= eff_level c) /\
+      (the_fmap files (a_ser a) = None <-> eff_level c < a_level a).
+Proof. exact assigned_iff_level. Qed.
+Print Assumptions C13_units_by_level.
+
+(* the names issued are never empty when the renderer has a file extension (so "has a filename" in __str__ / url / footnotes, a truth test,
+   and "filename is not None" agree), and for split levels below ENDSECTIONS_LEVEL every node with a file is a section-level unit, the owner
+   of the footnotes below it *)
+Theorem C13_assigned_names_and_owners :
+  forall c doc st files, assign c doc = Some (AOk st files) -> NoDup (sers doc) -> ext (r_fc c) <> [] ->
+    names_nonempty (the_fmap files) /\
+    (forall a, In a (elements doc) -> has_file (the_fmap files) a = (a_level a <=? eff_level c)) /\
+    (eff_level c < ENDSECTIONS_LEVEL -> forall a, In a (elements doc) -> is_owner (the_fmap files) a = has_file (the_fmap files) a).
+Proof.
+  intros c doc st files HA ND He. split; [exact (assigned_nonempty c doc st files HA He)|]. split; [exact (assigned_has_file c doc st files HA ND He)|].
+  intros L. exact (assigned_owner c doc st files HA ND He L).
+Qed.
+Print Assumptions C13_assigned_names_and_owners.
+
+(* END TO END (configuration + document |- files): for every configuration with a split level in [DOCUMENT_LEVEL, ENDSECTIONS_LEVEL) and a
+   non-empty extension, every document whose root is the DOCUMENT_NODE, all linear templates: if the assignment succeeds then
+   (1) a node has a file iff level <= split level; names pairwise distinct and not empty; (2) exactly one file is written per reached unit,
+   holding the unit's own text in document order followed by its footnotes; (3) all files together hold every text leaf exactly once.
+   The hypotheses about fmap of C13_split_partition (top_unit: the document unit has a file and owns footnotes) are discharged here. *)
+Theorem C13_split_by_level :
+  forall c ra rcs fnotes st files tmpl layout shows is_note,
+    let doc := E ra rcs in
+    let fm := the_fmap files in
+    assign c doc = Some (AOk st files) -> NoDup (sers doc) -> ext (r_fc c) <> [] ->
+    DOCUMENT_LEVEL <= eff_level c -> eff_level c < ENDSECTIONS_LEVEL ->
+    tmpl_linear tmpl shows -> layout_linear layout -> notes_listed is_note doc fnotes ->
+    a_isdoc ra = true ->
+    (forall c0, In c0 rcs -> vis ra c0 = true ->
+       match c0 with E da _ => is_note da = false /\ shows da = true | T _ => False end /\ sound fm shows is_note c0) ->
+    (forall a, In a (elements doc) -> has_file fm a = (a_level a <=? eff_level c)) /\
+    NoDup (file_names files) /\ names_nonempty fm /\
+    render fm tmpl layout shows doc fnotes =
+      map (fun p => (fname fm (fst p), content fm tmpl layout doc fnotes (fst p) (snd p)))
+          (flat_map (fun c0 => if vis ra c0 then producers fm shows c0 else []) rcs) /\
+    (forall p, In p (flat_map (fun c0 => if vis ra c0 then producers fm shows c0 else []) rcs) ->
+               words (content fm tmpl layout doc fnotes (fst p) (snd p)) = fwords fm shows is_note p) /\
+    Permutation (flat_map (fun f => words (snd f)) (render fm tmpl layout shows doc fnotes)) (leaves doc).
+Proof. exact split_by_level. Qed.
+Print Assumptions C13_split_by_level.
+
+(* "units below it are written inside their nearest file-producing ancestor", read from the text leaf: every leaf in the body of the file of
+   unit a has a as its NEAREST ancestor with a file along the parentNode chain -- every node between has none and shows its content -- and is
+   among the words of that file's body (with C13_units_by_level: a is the nearest ancestor whose level is <= the split level) *)
+Theorem C13_leaf_nearest_unit :
+  forall fmap shows chp a cs ch' w,
+    names_nonempty fmap -> has_file fmap a = true ->
+    In (ch', w) (flat_map (fun c => if vis a c then shown_leaves fmap shows (a :: chp) c else []) cs) ->
+    find (filep fmap) ch' = Some a /\
+    (exists mid, ch' = mid ++ a :: chp /\ Forall (fun p => shows p = true /\ fmap (a_ser p) = None) mid) /\
+    In w (kids_words fmap shows a cs).
+Proof. exact leaf_nearest_unit. Qed.
+Print Assumptions C13_leaf_nearest_unit.
+
+(* "in document order within that file": the body text of a file is an order-preserving sub-sequence of the text leaves of its unit
+   (and the footnote text comes after it: C13_file_words) *)
+Theorem C13_body_in_document_order :
+  forall fmap shows a cs, subseq (kids_words fmap shows a cs) (leaves (E a cs)).
+Proof. exact kids_words_subseq. Qed.
+Print Assumptions C13_body_in_document_order.
+
+Example C13_assigned_nonvacuous :
+  NoDup (sers ex_doc) /\ ext (r_fc ex_cfg) <> [] /\ DOCUMENT_LEVEL <= eff_level ex_cfg /\ eff_level ex_cfg < ENDSECTIONS_LEVEL /\ a_isdoc ex_root = true /\
+  nested (E ex_docenv [T 1; E ex_sec1 [T 2; E ex_fn [T 3]; T 4]; E ex_sec2 [T 5]]) /\
+  a_level ex_docenv = DOCUMENT_LEVEL /\
+  (forall b, In b (flat_map elements [T 1; E ex_sec1 [T 2; E ex_fn [T 3]; T 4]; E ex_sec2 [T 5]]) -> a_level b <> DOCUMENT_LEVEL) /\
+  In ([ex_sec1; ex_docenv; ex_root], 2)
+     (flat_map (fun c => if vis ex_sec1 c then shown_leaves (the_fmap ex_files) std_shows [ex_sec1; ex_docenv; ex_root] c else []) [T 2; E ex_fn [T 3]; T 4]) /\
+  has_file (the_fmap ex_files) ex_sec1 = (a_level ex_sec1 <=? eff_level ex_cfg).
+Proof. exact ex_assigned. Qed.
+
+(* the premises of the end-to-end theorem are decidable ([hyps_b]: root of type DOCUMENT_NODE, distinct node identities, extension, legal split
+   level, footnote list = footnote nodes, every rendered child a document-level unit that the linear templates render without loss) and the
+   extracted Model evaluates them on every case of the correspondence.  Whenever the answer is true and the assignment succeeds, what the
+   extracted Model computes with the table of the shipped templates has: files by level, distinct names, every text leaf exactly once, and
+   every file holds exactly the Spec's words of one unit. *)
+Theorem C13_checked_case :
+  forall c doc fnotes st files e,
+    assign c doc = Some (AOk st files) -> hyps_b c doc fnotes files = true ->
+    let fm := the_fmap files in
+    (forall a, In a (elements doc) -> has_file fm a = (a_level a <=? eff_level c)) /\
+    NoDup (file_names files) /\
+    Permutation (flat_map (fun f => words (snd f)) (render fm (std_tmpl e) std_layout std_shows doc fnotes)) (leaves doc) /\
+    (forall f, In f (render fm (std_tmpl e) std_layout std_shows doc fnotes) ->
+       exists p, fst f = fname fm (fst p) /\ words (snd f) = fwords fm std_shows std_note p).
+Proof. exact checked_case. Qed.
+Print Assumptions C13_checked_case.
+
+Example C13_checked_nonvacuous :
+  match assign ex_cfg ex_doc with Some (AOk _ files) => hyps_b ex_cfg ex_doc [3] files = true | _ => False end.
+Proof. exact ex_checked. Qed.
